@@ -64,7 +64,10 @@ class Parameter:
             warn("Upper limit must be greater than lower limit")
 
     def remove_boundaries(self):
-        self.proposal = self.standard_proposal
+        if self._non_negative:
+            self.proposal = self.abs_proposal
+        else:
+            self.proposal = self.standard_proposal
         self.bounded = False
         self.upper = 0.0
         self.lower = 0.0
@@ -78,7 +81,9 @@ class Parameter:
     def non_negative(self, value):
         if type(value) is bool:
             self._non_negative = value
-            if self._non_negative is True:
+            if self.bounded:
+                self.proposal = self.boundary_proposal
+            elif self._non_negative is True:
                 self.proposal = self.abs_proposal
             else:
                 self.proposal = self.standard_proposal
